@@ -23,7 +23,7 @@ from .. import core
 
 LEVEL = "exploration"
 RULE = ("sympy -> casadi: leaves {x, y, 2, -3, 1/3, 1/2, 1, 0, -1, 2.5, 0.75, -0.001}; depth-1 = unary/binary constructors on leaves; depth-2 = unary on depth-1, binary of "
-        "depth-1 with a leaf (thorough: with a reduced depth-1 set); matrices, user function map and cse wrapper on a sub-family. casadi -> sympy: leaves {a, b, 2, 2.5, -0.5}, every "
+        "depth-1 with a leaf (thorough: with a reduced depth-1 set); matrices, user function map and cse wrapper on a sub-family. casadi -> sympy: leaves {a, b, 2, 2.5, -0.5} + regularisation constants 1e-10 / 4e-10 / 3+1e-10 in well-conditioned positions, every "
         "handled opcode, same depth scheme. points (x,y) in {-7.5,-1.25,0.5,2,3.75}^2, points outside the real domain of the source skipped by the reference. "
         "non-trivial = tree contains a symbol and at least one operator; distinct by structural representation (srepr / str)")
 ASSUMPTIONS = ["mpmath evaluation of the SymPy source (30 digits) and CasADi evaluation of the SX source are the reference values",
@@ -306,6 +306,27 @@ def explore_sp_special(case):
                 if not (math.isfinite(got) and abs(got - want) <= 1e-9 * max(1, abs(want))):
                     res.fail(site="sympy_to_casadi", clause="value_preserved", cls=variant, detail=dict(expr=str(src), x=xv, y=yv, converted=got, source=want), sub="special", case=case)
                     break
+    # history independence: a function map given to one call must not leak into later calls
+    sat = sympy.Function("sat")
+    with contextlib.redirect_stdout(io.StringIO()):
+        try:
+            S.sympy_to_casadi(sat(X) + 1, f_dict={"sat": lambda a: ca.fmin(a, 1), "g": lambda a: 5 * a})
+        except Exception:
+            pass
+    res.count("evaluations")
+    try:
+        with contextlib.redirect_stdout(io.StringIO()):
+            e_ca, symbols = S.sympy_to_casadi(sat(X) + 1)
+        res.fail(site="sympy_to_casadi", clause="unsupported_construct_raises", cls="f_dict_sequence",
+                 detail=dict(expr="sat(x) + 1", note="converted without a function map after an earlier call had one", result=str(e_ca)), sub="special", case=case)
+    except Exception:
+        res.count("refused")
+    with contextlib.redirect_stdout(io.StringIO()):
+        e_ca, symbols = S.sympy_to_casadi(sympy.sin(X) + sympy.cos(X) / 2)
+    got = float(np.array(ca.Function("f", [symbols["x"]], [ca.SX(e_ca)])(2.3)).reshape(-1)[0])
+    res.count("evaluations")
+    if abs(got - (math.sin(2.3) + math.cos(2.3) / 2)) > 1e-12:
+        res.fail(site="sympy_to_casadi", clause="value_preserved", cls="f_dict_sequence", detail=dict(expr="sin(x) + cos(x)/2", x=2.3, converted=got), sub="special", case=case)
     # shared symbol table across calls: the same name maps to the same variable
     table = {}
     with contextlib.redirect_stdout(io.StringIO()):
@@ -398,7 +419,12 @@ def ca_trees(tier, part, nparts):
                 e = f(a, b)
                 d1.append((e, nm))
                 add(e, nm, 1)
-    d1u = [(e, t) for e, t, d in out if d == 1]
+    # constants that are tiny or within 1e-9 of an integer (regularisation constants), in well-conditioned positions only
+    for cst in (1e-10, 4e-10, 3.0 + 1e-10):
+        c = ca.SX(cst)
+        for e, t in ((A * c, "mul_tiny"), (ca.sqrt(A * A + c), "sqrt_reg"), (A / (Bs * Bs + c), "div_reg"), (c - 3 + A * 0, "tiny_minus_int")):
+            add(e, t, 1)
+    d1u = [(e, t) for e, t, d in out if d == 1 and t not in ("mul_tiny", "sqrt_reg", "div_reg", "tiny_minus_int")]
     for nm, f in CA_UN:
         for e, t in d1u:
             with contextlib.suppress(Exception):
@@ -493,7 +519,8 @@ def explore_ca(case):
             res.outcomes.add(hash(round(want, 9)))
             if got is None:
                 continue  # converted expression is complex / undefined where CasADi's libm returned a real: domain edge, not judged
-            if isinstance(got, str) or not abs(got - want) <= 1e-9 * max(1.0, abs(want)):
+            # relative 1e-9 plus the round-off of the double-precision source itself (1e-13 of its largest intermediate value)
+            if isinstance(got, str) or not abs(got - want) <= 1e-9 * abs(want) + 1e-13 * max(1.0, float(np.max(np.abs(inter)))):
                 res.fail(site="casadi_to_sympy", clause="value_preserved", cls=cls, detail=dict(expr=str(e), tag=tag, a=av, b=bv, converted=got, source=want, sympy=str(e_sp)[:200]),
                          sub="ca", case=case)
                 break
